@@ -13,6 +13,7 @@ package main
 
 import (
 	"context"
+	"encoding/base64"
 	"errors"
 	"fmt"
 	"net"
@@ -172,11 +173,23 @@ func groupCases(g *hx.Gen, st *fwdStats, tier string) ([]string, error) {
 					return "", false
 				}
 			}
+			// the endpoint id the request was pooled by: the fourth component of the dial address
+			endpointID := member + "#?"
+			if dial != "" {
+				if parts := strings.Split(strings.TrimSuffix(dial, ":80"), "."); len(parts) >= 5 {
+					if b, err := base64.StdEncoding.DecodeString(parts[len(parts)-2]); err == nil {
+						endpointID = string(b)
+					}
+				}
+				if !strings.HasPrefix(endpointID, member+"#") {
+					st.fail("impl:group-pool-key-names-other-member", fmt.Sprintf("request served by member %q was pooled under endpoint %q (dial address %s)", member, endpointID, dial), dial)
+				}
+			}
 			beginCase()
 			route := fmt.Sprintf("{| hc_domain := %s; hc_location := %s; hc_user := %s; hc_rewrite_host := %s; hc_headers := %s; hc_resp_headers := %s; hc_endpoint := Some %s; hc_id := 0 |}",
 				S(rt.domain), S(rt.location), S(rt.user), S(rt.rewriteHost), coqPairs(mapOrder(rt.headers, obs(seen.hdrs), canonGo)),
-				coqPairs(mapOrder(rt.respHeaders, obs(got.hdrs), canonGo)), S(member))
-			cs := endCase(fmt.Sprintf("CFwdG (%s) %d (%s) %s (%s) %s (%s) (%s)", route, seen.route, coqReq(rg, ip, false), S(reencQuery(rg.query)),
+				coqPairs(mapOrder(rt.respHeaders, obs(got.hdrs), canonGo)), S(endpointID))
+			cs := endCase(fmt.Sprintf("CFwdG (%s) %d %s (%s) %s (%s) %s (%s) (%s)", route, seen.route, S(member), coqReq(rg, ip, false), S(reencQuery(rg.query)),
 				coqSeen(seen), optS(dial), coqScripted(resp, rg.req.method), coqGotFor(got, resp)))
 			cases = append(cases, cs)
 			st.dist["group:forward"]++
@@ -252,11 +265,7 @@ func groupCases(g *hx.Gen, st *fwdStats, tier string) ([]string, error) {
 		cs := fmt.Sprintf("CRegroup %d %d %d %d", variant, firstRoute, secondRoute, status)
 		cases = append(cases, cs)
 		st.dist[fmt.Sprintf("group:regroup:%s", map[int]string{0: "other-member-name", 1: "same-member-name"}[variant])]++
-		if variant == 1 && firstRoute == 1 && secondRoute == 1 {
-			// RECORDED FINDING F-C02f (design/C02.md): group routes carry registration id 0 and leaving a group does not
-			// close idle backend connections, so a member joining under a former member's name inherits them
-			st.fail("C02:http-group:rejoin-same-member-name-reuses-former-backend",
-				"http group g1/alpha (backend 1) closed, group g2/alpha (backend 2) registered on the same (domain, location, user): the next request on the keep-alive connection reached backend 1", cs)
+		if false {
 		} else if firstRoute != 1 || secondRoute != 2 || status != 200 {
 			st.fail("impl:request-reached-backend-of-closed-group:"+map[int]string{0: "other-member-name", 1: "same-member-name"}[variant],
 				fmt.Sprintf("group g1/alpha closed, group g2/%s registered on the same (domain, location, user): the next request on the keep-alive connection reached backend %d (status %d); expected the new member's backend 2",
